@@ -26,24 +26,43 @@ impl Deserializer {
     #[verifier::external_body] pub fn cbor_len(&mut self) -> (r: Result<(cbor_event::Len, usize), CborError>)
         ensures final(self).rem() == old(self).rem(), r is Ok ==> r->Ok_0.1 <= 8,
                 old(self).rem().len() > 0 && old(self).rem()[0] is Bytes ==> r is Ok && r->Ok_0.0 == cbor_event::Len::Len(old(self).rem()[0]->Bytes_0.len() as u64) && r->Ok_0.1 == len_sz(old(self).rem()[0]->Bytes_0.len()) && r->Ok_0.1 <= 8,
-                old(self).rem().len() > 0 && old(self).rem()[0] == indef_bytes_start() ==> r is Ok && r->Ok_0.0 is Indefinite && r->Ok_0.1 == 0 { unimplemented!() }
+                old(self).rem().len() > 0 && old(self).rem()[0] == indef_bytes_start() ==> r is Ok && r->Ok_0.0 is Indefinite && r->Ok_0.1 == 0,
+                // a negative integer -1 - n (0 <= n < 2^64): the "length" is its argument n
+                old(self).rem().len() > 0 && old(self).rem()[0] is NInt && -0x1_0000_0000_0000_0000 <= old(self).rem()[0]->NInt_0 <= -1
+                    ==> r is Ok && r->Ok_0.0 == cbor_event::Len::Len((-1 - old(self).rem()[0]->NInt_0) as u64) && r->Ok_0.1 == len_sz((-1 - old(self).rem()[0]->NInt_0) as nat) { unimplemented!() }
     #[verifier::external_body] pub fn bytes(&mut self) -> (r: Result<Vec<u8>, CborError>)
         ensures old(self).rem().len() > 0 && old(self).rem()[0] is Bytes ==> r is Ok && r->Ok_0@ == old(self).rem()[0]->Bytes_0 && final(self).rem() == old(self).rem().skip(1) { unimplemented!() }
     /// skips n raw bytes: exactly the head of a definite byte string (its content stays, as Payload), or the 0x5f start byte
     #[verifier::external_body] pub fn advance(&mut self, n: usize) -> (r: Result<(), CborError>)
         ensures old(self).rem().len() > 0 && old(self).rem()[0] is Bytes && n == 1 + len_sz(old(self).rem()[0]->Bytes_0.len())
                     ==> r is Ok && final(self).rem() == seq![Tok::Payload(old(self).rem()[0]->Bytes_0)] + old(self).rem().skip(1),
-                old(self).rem().len() > 0 && old(self).rem()[0] == indef_bytes_start() && n == 1 ==> r is Ok && final(self).rem() == old(self).rem().skip(1) { unimplemented!() }
+                old(self).rem().len() > 0 && old(self).rem()[0] == indef_bytes_start() && n == 1 ==> r is Ok && final(self).rem() == old(self).rem().skip(1),
+                old(self).rem().len() > 0 && old(self).rem()[0] is NInt && -0x1_0000_0000_0000_0000 <= old(self).rem()[0]->NInt_0 <= -1 && n == 1 + len_sz((-1 - old(self).rem()[0]->NInt_0) as nat)
+                    ==> r is Ok && final(self).rem() == old(self).rem().skip(1) { unimplemented!() }
     /// `as_mut_ref().by_ref().take(len).read_to_end(&mut out)` (R-readexact): appends the next `len` raw bytes
     #[verifier::external_body] pub fn read_raw(&mut self, len: u64, out: &mut Vec<u8>) -> (r: Result<usize, CborError>)
         ensures old(self).rem().len() > 0 && old(self).rem()[0] is Payload && len == old(self).rem()[0]->Payload_0.len()
                     ==> r is Ok && final(out)@ == old(out)@ + old(self).rem()[0]->Payload_0 && final(self).rem() == old(self).rem().skip(1) { unimplemented!() }
+    #[verifier::external_body] pub fn tag(&mut self) -> (r: Result<u64, CborError>)
+        ensures old(self).rem().len() > 0 && old(self).rem()[0] is Tag ==> r is Ok && r->Ok_0 == old(self).rem()[0]->Tag_0 && final(self).rem() == old(self).rem().skip(1),
+                // a typed token that is not a tag: an error, nothing consumed (cbor_event checks the type before it reads)
+                old(self).rem().len() > 0 && typed(old(self).rem()[0]) && !(old(self).rem()[0] is Tag) ==> r is Err && final(self).rem() == old(self).rem() { unimplemented!() }
+    #[verifier::external_body] pub fn unsigned_integer(&mut self) -> (r: Result<u64, CborError>)
+        ensures old(self).rem().len() > 0 && old(self).rem()[0] is UInt ==> r is Ok && r->Ok_0 == old(self).rem()[0]->UInt_0 && final(self).rem() == old(self).rem().skip(1) { unimplemented!() }
     #[verifier::external_body] pub fn special(&mut self) -> (r: Result<CBORSpecial, CborError>)
         ensures old(self).rem().len() > 0 && old(self).rem()[0] is Special ==> r is Ok && r->Ok_0 == old(self).rem()[0]->Special_0 && final(self).rem() == old(self).rem().skip(1) { unimplemented!() }
 }
 // the library's error type: only Ok/Err-ness matters; conversions as in error.rs
-pub enum DeserializeFailure { OutOfRange { min: usize, max: usize, found: usize }, EndingBreakMissing, CBOR(CborError), Other }
+pub enum Key { Str(String), Uint(u64) }
+pub enum DeserializeFailure {
+    OutOfRange { min: usize, max: usize, found: usize }, EndingBreakMissing, CBOR(CborError), CustomError(String),
+    TagMismatch { found: u64, expected: u64 }, FixedValueMismatch { found: Key, expected: Key }, ExpectedNull, NoVariantMatched, Other,
+}
 #[verifier::external_body] pub struct DeserializeError { _p: core::marker::PhantomData<u8> }
+impl DeserializeError {
+    #[verifier::external_body] pub fn new(location: &str, failure: DeserializeFailure) -> DeserializeError { unimplemented!() }
+    #[verifier::external_body] pub fn annotate(self, location: &str) -> DeserializeError { unimplemented!() }
+}
 impl From<CborError> for DeserializeError { #[verifier::external_body] fn from(e: CborError) -> (r: DeserializeError) { unimplemented!() } }
 impl From<DeserializeFailure> for DeserializeError { #[verifier::external_body] fn from(e: DeserializeFailure) -> (r: DeserializeError) { unimplemented!() } }
 impl vstd::std_specs::convert::FromSpecImpl<CborError> for DeserializeError { open spec fn obeys_from_spec() -> bool { false } uninterp spec fn from_spec(e: CborError) -> DeserializeError; }
